@@ -306,6 +306,13 @@ func (f *fragmentList) build(in *layers.IPv4) (*layers.IPv4, error) {
 		debug.Printf("defrag: building - next is %d\n", currentOffset)
 	}
 
+	// the header that is kept (options included) and the payload must fit the
+	// 16 bit total length; fragments are only checked against a 20 byte header
+	if int(in.IHL)*4+len(final) > IPv4MaximumSize {
+		return nil, fmt.Errorf("defrag: reassembled datagram too big (%d > %d)",
+			int(in.IHL)*4+len(final), IPv4MaximumSize)
+	}
+
 	// TODO recompute IP Checksum
 	out := &layers.IPv4{
 		Version:    in.Version,
